@@ -17,6 +17,7 @@ import (
 	"math/rand"
 	"net/http"
 	"net/http/httptest"
+	"net/url"
 	"sort"
 	"strings"
 	"sync"
@@ -38,15 +39,97 @@ const (
 	c16TrkLife      = 90
 )
 
+// c16Url is an Options.URL as the record of class strings of spec/SessionTokenUrl.tla:
+// host sp | SP (same origin, other letter case) | sp2 (another origin), path "" | / | /wiki | /wiki/ |
+// /payroll | /payroll/, query "" | t=a | t=b.  The zero value is the bare origin https://sp.example.com.
+type c16Url struct {
+	Host  string `json:"host"`
+	Path  string `json:"path"`
+	Query string `json:"query"`
+}
+
+func (u c16Url) norm() c16Url {
+	if u.Host == "" {
+		u.Host = "sp"
+	}
+	return u
+}
+func (u c16Url) bare() bool { return u.norm() == c16Url{Host: "sp"} }
+func (u c16Url) none() bool { return u.Host == "-" } // NoUrl: a token assembled by hand
+func (u c16Url) key() string {
+	u = u.norm()
+	if u.Query != "" {
+		return u.Host + u.Path + "?" + u.Query
+	}
+	return u.Host + u.Path
+}
+
+var c16PathNames = [][2]string{{"wiki", "payroll"}, {"app", "api"}, {"tenants/acme", "tenants/umbrella"}}
+var c16HostCases = []string{"SP.example.com", "sp.Example.com", "SP.EXAMPLE.COM"}
+var c16OtherOrigins = []string{"https://sp2.example.com", "http://sp.example.com", "https://sp.example.com:8443", "https://sp.example.org"}
+var c16QueryNames = []string{"tenant", "t", "realm"}
+
+const c16UrlPicks = 3 * 3 * 4 * 3
+
+// c16UrlConc turns a URL record into a string; pick (0 <= pick < c16UrlPicks) chooses the concrete names of
+// the path, the spelling of the host, the other origin and the name of the query parameter.  For one pick the
+// mapping is injective, so records that differ in one component give strings that differ in that component only.
+func c16UrlConc(u c16Url, pick int) (string, error) {
+	u = u.norm()
+	names, hostCase, origin, qn := c16PathNames[pick%3], c16HostCases[(pick/3)%3], c16OtherOrigins[(pick/9)%4], c16QueryNames[(pick/36)%3]
+	var out string
+	switch u.Host {
+	case "sp":
+		out = spRoot
+	case "SP":
+		out = "https://" + hostCase
+	case "sp2":
+		out = origin
+	default:
+		return "", fmt.Errorf("URL record %+v: host class %q", u, u.Host)
+	}
+	switch u.Path {
+	case "", "/":
+		out += u.Path
+	case "/wiki", "/wiki/":
+		out += "/" + names[0] + u.Path[len("/wiki"):]
+	case "/payroll", "/payroll/":
+		out += "/" + names[1] + u.Path[len("/payroll"):]
+	default:
+		return "", fmt.Errorf("URL record %+v: path class %q", u, u.Path)
+	}
+	switch u.Query {
+	case "":
+	case "t=a", "t=b":
+		out += "?" + qn + "=" + u.Query[2:]
+	default:
+		return "", fmt.Errorf("URL record %+v: query class %q", u, u.Query)
+	}
+	// what net/url makes of it must be the string itself: Options.URL.String() is what the model calls UrlString
+	if p, err := url.Parse(out); err != nil || p.String() != out {
+		return "", fmt.Errorf("URL record %+v: %q does not survive url.Parse + String (%v)", u, out, err)
+	}
+	return out, nil
+}
+
+func c16MustUrl(u c16Url, pick int) string {
+	s, err := c16UrlConc(u, pick)
+	if err != nil {
+		panic(err)
+	}
+	return s
+}
+
 // Life is JWTSessionCodec.MaxAge (the session lifetime), CookieSecs CookieSessionProvider.MaxAge and
 // CookieAge its class relative to the lifetime: equal | longer | shorter | zero ("" = equal: a
-// configuration written down by hand in the history tests).
+// configuration written down by hand in the history tests).  Url is Options.URL.
 type c16Cfg struct {
 	Spkey      string `json:"spkey"`
 	Life       int64  `json:"life"`
 	Cookie     string `json:"cookie"`
 	CookieAge  string `json:"cookieAge,omitempty"`
 	CookieSecs int64  `json:"cookieSecs"`
+	Url        c16Url `json:"url"`
 }
 
 func (c c16Cfg) separated() bool { return c.CookieAge != "" && c.CookieAge != "equal" }
@@ -60,10 +143,14 @@ func (c c16Cfg) cookieMaxAge() int64 {
 }
 
 func (c c16Cfg) String() string {
+	s := fmt.Sprintf("%s/%d/%s", c.Spkey, c.Life, c.Cookie)
 	if c.separated() {
-		return fmt.Sprintf("%s/%d/%s/cookie=%s", c.Spkey, c.Life, c.Cookie, c.CookieAge)
+		s += "/cookie=" + c.CookieAge
 	}
-	return fmt.Sprintf("%s/%d/%s", c.Spkey, c.Life, c.Cookie)
+	if !c.Url.bare() {
+		s += "/url=" + c.Url.key()
+	}
+	return s
 }
 
 // c16CfgSane: the class and the number of seconds the model states for the cookie agree.
@@ -108,7 +195,10 @@ type c16Tok struct {
 	Mutation string `json:"mutation"`
 	Slot     string `json:"slot"`
 	Age      int64  `json:"age"`
+	By       string `json:"by"` // minted: this | otherKey | otherURL | sibPath | sibQuery | sibSlash | sibCase
 }
+
+func c16IsSibling(by string) bool { return strings.HasPrefix(by, "sib") }
 
 type c16Step struct {
 	Verdict string `json:"verdict"`
@@ -125,6 +215,13 @@ type c16Vec struct {
 		Out  string  `json:"out"`
 		Trk  c16Step `json:"trk"`
 	} `json:"pred"`
+	// step NewCodecs of the model: the minting deployment's Options.URL, the audience = issuer its codec stamps
+	// into the token and the audience = issuer this deployment's codecs require (NoUrl where there is none)
+	Mint struct {
+		Url c16Url `json:"url"`
+		Aud c16Url `json:"aud"`
+		Own c16Url `json:"own"`
+	} `json:"mint"`
 }
 
 type c16Attr struct {
@@ -155,6 +252,7 @@ type c16MapVec struct {
 		Claims         map[string][]string `json:"claims"`
 		Exp            int64               `json:"exp"`      // token end, seconds after the mint
 		CkMaxAge       int64               `json:"ckMaxAge"` // Max-Age attribute of the Set-Cookie (c16Absent = none)
+		Aud            c16Url              `json:"aud"`      // audience = issuer the codec stamps
 		Gates          []c16Gate           `json:"gates"`
 		NoSessionAdmit bool                `json:"noSessionAdmit"`
 	} `json:"pred"`
@@ -186,6 +284,7 @@ type c16LifeVec struct {
 		Out      string              `json:"out"`
 		Exp      int64               `json:"exp"`
 		CkMaxAge int64               `json:"ckMaxAge"` // Max-Age attribute of the Set-Cookie (c16Absent = none)
+		Aud      c16Url              `json:"aud"`      // audience = issuer the codec stamps
 		Subj     string              `json:"subj"`
 		Claims   map[string][]string `json:"claims"`
 	} `json:"pred"`
@@ -301,7 +400,9 @@ func c16TokKey(v *c16Vec) string {
 		if t.Key != "this" {
 			add("key", t.Key)
 		}
-		if t.Iss != "eq" {
+		if c16IsSibling(t.By) {
+			add("by", t.By)
+		} else if t.Iss != "eq" {
 			add("url", "other")
 		}
 		add("age", fmt.Sprint(t.Age))
@@ -357,11 +458,16 @@ func c16MapKey(v *c16MapVec) string {
 type c16Depl struct {
 	m       *samlsp.Middleware
 	kp      *KeyPair
-	root    string
+	root    string // Options.URL as given
+	base    string // scheme, host and path of root without trailing slash and query: where requests are sent
 	cookie  string // configured session cookie name
 	cfg     c16Cfg
 	onError *int64
+	note    string // what samlsp.New's defaults gave that the model of the configuration does not say (drift)
 }
+
+// at is the URL of a request to this deployment.
+func (d *c16Depl) at(path string) string { return d.base + path }
 
 func c16KeyName(spkey, which string) string {
 	switch {
@@ -395,8 +501,11 @@ func c16NewDepl(cfg c16Cfg, which, root string) (*c16Depl, error) {
 	if err != nil {
 		return nil, err
 	}
-	if cfg.Life != 3600 {
-		// a custom session lifetime is configured by replacing the default provider's codec
+	note := ""
+	if !cfg.separated() {
+		// the session lifetime of the configuration is set on the default provider's codec (and cookie).  What
+		// samlsp.New chooses when nothing is said is behaviour of the code under test: the model takes one hour
+		// for it, another value is recorded (drift), the deployment gets the lifetime its vectors state
 		sess, ok := m.Session.(samlsp.CookieSessionProvider)
 		if !ok {
 			return nil, fmt.Errorf("default session provider is %T", m.Session)
@@ -404,6 +513,9 @@ func c16NewDepl(cfg c16Cfg, which, root string) (*c16Depl, error) {
 		codec, ok := sess.Codec.(samlsp.JWTSessionCodec)
 		if !ok {
 			return nil, fmt.Errorf("default session codec is %T", sess.Codec)
+		}
+		if codec.MaxAge != time.Hour || sess.MaxAge != time.Hour {
+			note = fmt.Sprintf("samlsp.New's defaults: session codec MaxAge %v, cookie MaxAge %v; the model of the default configuration says 1h for both", codec.MaxAge, sess.MaxAge)
 		}
 		codec.MaxAge = time.Duration(cfg.Life) * time.Second
 		sess.Codec = codec
@@ -445,7 +557,10 @@ func c16NewDepl(cfg c16Cfg, which, root string) (*c16Depl, error) {
 		w.Header().Set(c16OnErrorHeader, "1")
 		http.Error(w, http.StatusText(http.StatusForbidden), http.StatusForbidden)
 	}
-	return &c16Depl{m: m, kp: kp, root: root, cookie: name, cfg: cfg}, nil
+	base := opts.URL
+	base.RawQuery, base.ForceQuery = "", false
+	base.Path, base.RawPath = strings.TrimRight(base.Path, "/"), ""
+	return &c16Depl{m: m, kp: kp, root: root, base: base.String(), cookie: name, cfg: cfg, note: note}, nil
 }
 
 type c16Env struct {
@@ -471,7 +586,9 @@ func (e *c16Env) depl(cfg c16Cfg, which, root string) *c16Depl {
 	return d
 }
 
-// strings that are "another" issuer / audience / deployment URL: unrelated and near misses
+// strings that are "another" issuer / audience in a token assembled by hand: unrelated and near misses.
+// (Deployments with another URL are URL records of the model: another origin - c16OtherOrigins - or a sibling
+// that differs in the path, the query, a trailing slash or the letter case of the host.)
 var c16OtherRoots = []string{"https://sp2.example.com", "https://sp.example.com/", "http://sp.example.com",
 	"https://sp.example.com:8443", "https://sp.example.com/app", "https://sp.example.org"}
 var c16OtherStrings = append([]string{"https://SP.example.com", "https://sp.example.co", "https://sp.example.com.evil.org",
@@ -578,7 +695,7 @@ func c16Mint(d *c16Depl, a *saml.Assertion) (string, error) {
 // Max-Age attribute of the Set-Cookie line as written ("" = no such attribute; several are joined by "|").
 func c16MintCookie(d *c16Depl, a *saml.Assertion) (token, maxAge string, err error) {
 	rec := httptest.NewRecorder()
-	req := httptest.NewRequest("POST", d.root+"/saml/acs", nil)
+	req := httptest.NewRequest("POST", d.at("/saml/acs"), nil)
 	if err := d.m.Session.CreateSession(rec, req, a); err != nil {
 		return "", "", err
 	}
@@ -605,7 +722,7 @@ func c16MintCookie(d *c16Depl, a *saml.Assertion) (token, maxAge string, err err
 
 func c16MintTracking(d *c16Depl, rng *rand.Rand) (token, index string, err error) {
 	rec := httptest.NewRecorder()
-	req := httptest.NewRequest("GET", d.root+"/private/"+fmt.Sprint(rng.Intn(1000)), nil)
+	req := httptest.NewRequest("GET", d.at("/private/"+fmt.Sprint(rng.Intn(1000))), nil)
 	index, err = d.m.RequestTracker.TrackRequest(rec, req, fmt.Sprintf("id-%016x", rng.Uint64()))
 	if err != nil {
 		return "", "", err
@@ -702,15 +819,20 @@ type c16Crafted struct {
 }
 
 // c16Craft assembles header.claims.signature for an abstract token (before mutation).
-func c16Craft(cfg c16Cfg, t c16Tok, nowSec int64, rng *rand.Rand) (c16Crafted, error) {
-	root := spRoot
+// own is the audience = issuer the model says this deployment's codecs require (class "eq").
+func c16Craft(cfg c16Cfg, t c16Tok, own string, nowSec int64, rng *rand.Rand) (c16Crafted, error) {
+	root := own
 	claims := map[string]any{}
 	str := func(class string) (string, bool) {
 		switch class {
 		case "eq":
 			return root, true
 		case "other":
-			return c16OtherStrings[rng.Intn(len(c16OtherStrings))], true
+			for {
+				if s := c16OtherStrings[rng.Intn(len(c16OtherStrings))]; s != root {
+					return s, true
+				}
+			}
 		}
 		return "", false
 	}
@@ -985,6 +1107,26 @@ func c16PeekClaims(tok string) (map[string]any, error) {
 	return m, dec.Decode(&m)
 }
 
+// c16PeekIdent reads iss and aud (a string, or an array joined by "|") of a token without verifying anything.
+func c16PeekIdent(tok string) (iss, aud string, audIsString bool, err error) {
+	m, err := c16PeekClaims(tok)
+	if err != nil {
+		return "", "", false, err
+	}
+	iss, _ = m["iss"].(string)
+	switch a := m["aud"].(type) {
+	case string:
+		aud, audIsString = a, true
+	case []any:
+		var p []string
+		for _, x := range a {
+			p = append(p, fmt.Sprint(x))
+		}
+		aud = strings.Join(p, "|")
+	}
+	return iss, aud, audIsString, nil
+}
+
 // ---------------------------------------------------------------------------
 // observation through the public surface
 
@@ -1039,7 +1181,7 @@ func c16Request(d *c16Depl, cookieHeader string, firstOf []string, wrap func(htt
 		w.WriteHeader(http.StatusOK)
 	})
 	rec := httptest.NewRecorder()
-	req := httptest.NewRequest("GET", d.root+"/private/page", nil)
+	req := httptest.NewRequest("GET", d.at("/private/page"), nil)
 	if cookieHeader != "" {
 		req.Header.Set("Cookie", cookieHeader)
 	}
@@ -1066,7 +1208,7 @@ func c16Request(d *c16Depl, cookieHeader string, firstOf []string, wrap func(htt
 
 // c16Tracked presents the token to the request tracker under NamePrefix + sub.
 func c16Tracked(d *c16Depl, sub, token string) (accepted bool, panicked string) {
-	req := httptest.NewRequest("POST", d.root+"/saml/acs", nil)
+	req := httptest.NewRequest("POST", d.at("/saml/acs"), nil)
 	req.Header.Set("Cookie", "saml_"+sub+"="+token)
 	p, msg := safely(func() {
 		for _, tr := range d.m.RequestTracker.GetTrackedRequests(req) {
